@@ -80,7 +80,7 @@ CFG = dict(
     bins=["c06"],
     imports=["Run.RunC01", "Run.RunC03", "Run.RunC04", "Run.RunC13"],
     rule="part=prefix: 40 (thorough 90) structured series of length 1..9 (14) with nulls x 2 random (window, explicit min_periods) x all "
-         "37 rolling entry points (Vec = index body / VecDeque = iterator body alternating) x EVERY cut point 0..=len (omitted "
+         "37 rolling entry points (Vec = index body / VecDeque = iterator body alternating) + ts_vregx_all (audit block: equal / longer / shorter second series) x EVERY cut point 0..=len (omitted "
          "min_periods added for cuts >= w): f(xs[..k]) must equal f(xs)[..k] bit for bit and agree with the model run on the prefix "
          "(1e-7, nullness exact, exactly-singular windows skipped); shift / vshift / vdiff / vpct_change for every lag 0..=len+1, "
          "null and non-null fill, every cut. part=window: 90 (thorough 240) configurations of two different finite histories (one "
@@ -88,7 +88,12 @@ CFG = dict(
          "must be identical for min / max / arg-extrema / rank and within 1e-9 relative to the history magnitude otherwise, for all 37 "
          "entry points. nt=0 marks the empty prefix.",
     theorem_hint="Props/C06.v",
-    level_text="Proof (Coq, 62 theorems in Props/C06.v). (A) No look-ahead, bit for bit: the prefix law out(firstn k xs) = firstn k "
+    level_text="Proof (Coq, 70 theorems in Props/C06.v; audit matrix in notes/C06.md). AUDIT (Proofs/Audit06.v, section (D)): the prefix law at the level "
+               "of the OUTCOME of the call for EVERY window (whenever the whole call returns, the prefix call returns the prefix of its result "
+               "and does not panic), by name for the 14 one-series add-emit-remove entry points and the two fractional differences; the "
+               "two-series ENTRY points with their length assertion / truncation on series of any lengths (prefix law; window-only law in exact "
+               "reals for two pairs of series with independently chosen bodies; the out_of form refuted when the whole call is rejected); the "
+               "rejected fill value of vshift / vdiff (same panic on every prefix). (A) No look-ahead, bit for bit: the prefix law out(firstn k xs) = firstn k "
                "(out xs) for EVERY add-emit-remove rolling feature over every carrier (no law of the numeric class is used, so it "
                "holds at binary64 too), both driver bodies, every window >= 1 and cut k (moments, ewm, wma, z-score, cov / corr / "
                "regression-on-x over the zipped series, trend regressions); for the slice-form drivers (fdiff) with any stateful "
